@@ -12,7 +12,7 @@ from __future__ import annotations
 
 import ast
 
-from ..core.terms import (c, evaluate, fn_name, kw, make_inliner, n, pretty, subterms,
+from ..core.terms import (cmp_, not_, pc, phi_, c, evaluate, fn_name, kw, make_inliner, n, pretty, subterms,
                           unwrap_callable)
 from ..domains import concrete
 from .common import LIB_FACTS, cond_parts, is_call, kernel_classes, method, short
